@@ -256,7 +256,7 @@ def deserialize_address(address, encoding=None, network=None):
 
     if encoding is None or encoding == 'base58':
         try:
-            address_bytes = change_base(address, 58, 256, 25)
+            address_bytes = change_base(address, 58, 256)
         except EncodingError:
             pass
         else:
